@@ -236,7 +236,7 @@ def correspondence(ctx):
     P = _P()
     rng = ctx.rng
     widen = 3 if ctx.widen else 1
-    N = ctx.scale(400, 10000) * widen
+    N = ctx.scale(400, 25000) * widen
     # ------------------------------------------------ constructors: model vs implementation
     cons = []
     for i in range(N):
